@@ -14,4 +14,4 @@ str / int / float / bool / None) so that a failing case can be written to a
 replay file and executed again without Hypothesis.
 """
 from .core import (SubCheck, Violation, HarnessError, call, judge, check,  # noqa
-                   exc_site, note_label, f2j, j2f, abbrev)
+                   exc_site, note_label, note_count, f2j, j2f, abbrev)
